@@ -54,6 +54,9 @@ type Conn struct {
 	localPeerID  core.PeerID
 	bandwidth    *bandwidth.Limiter
 
+	// Upper bound on the length of a piece payload accepted from the remote peer.
+	maxPieceLength int64
+
 	events Events
 
 	nc            net.Conn
@@ -103,6 +106,7 @@ func newConn(
 		peerID:         remotePeerID,
 		isPeerOrigin:   isRemotePeerOrigin,
 		infoHash:       info.InfoHash(),
+		maxPieceLength: info.MaxPieceLength(),
 		createdAt:      clk.Now(),
 		localPeerID:    localPeerID,
 		bandwidth:      bandwidth,
@@ -200,6 +204,11 @@ func (c *Conn) IsClosed() bool {
 }
 
 func (c *Conn) readPayload(length int32) ([]byte, error) {
+	// The length is chosen by the remote peer: never allocate more than a piece.
+	if length < 0 || int64(length) > c.maxPieceLength {
+		return nil, fmt.Errorf(
+			"invalid payload length %d: max piece length is %d", length, c.maxPieceLength)
+	}
 	if err := c.bandwidth.ReserveIngress(int64(length)); err != nil {
 		c.log().Errorf("Error reserving ingress bandwidth for piece payload: %s", err)
 		return nil, fmt.Errorf("ingress bandwidth: %s", err)
